@@ -39,6 +39,7 @@ type fakeRegion struct {
 	encOK    bool
 	decOK    bool
 	partial  bool      // GenerateDataKey answers without error but with an empty CiphertextBlob (the plaintext is there)
+	errKind  int       // flavour of the error a failing call returns (0 plain, 1 wraps context.DeadlineExceeded, 2 wraps context.Canceled, 3 SDK operation error)
 	wrong    bool      // Decrypt answers without error but with a data key that is not the one the envelope was sealed under (a stale or foreign regional entry)
 	log      *[]string // shared, ordered call log "gen:<id>", "enc:<id>", "dec:<id>"
 	logMu    *sync.Mutex
@@ -74,6 +75,20 @@ func (f *fakeRegion) maybeCancel(kind string) {
 	k.left--
 }
 
+// down is the error a failing regional call returns: a region that is unreachable surfaces as a client/attempt time-out (which wraps
+// context.DeadlineExceeded although the CALLER's context is alive), a cancelled attempt, or a plain service error
+func (f *fakeRegion) down() error {
+	switch f.errKind {
+	case 1:
+		return fmt.Errorf("operation error KMS: Post https://kms.%s: %w (Client.Timeout exceeded while awaiting headers)", f.name, context.DeadlineExceeded)
+	case 2:
+		return fmt.Errorf("operation error KMS: request attempt cancelled: %w", context.Canceled)
+	case 3:
+		return errors.New("KMSInternalException: internal failure")
+	}
+	return errors.New("region down")
+}
+
 func (f *fakeRegion) note(s string) {
 	f.logMu.Lock()
 	*f.log = append(*f.log, fmt.Sprintf("%s:%d", s, f.id))
@@ -103,7 +118,7 @@ func (f *fakeRegion) open(blob []byte) ([]byte, error) {
 func (f *fakeRegion) generate() ([]byte, []byte, error) {
 	f.note("gen")
 	if !f.genOK {
-		return nil, nil, errors.New("region down")
+		return nil, nil, f.down()
 	}
 	pt := make([]byte, 32)
 	rand.Read(pt)
@@ -121,16 +136,20 @@ func (f *fakeRegion) generate() ([]byte, []byte, error) {
 func (f *fakeRegion) encrypt(pt []byte) ([]byte, error) {
 	f.note("enc")
 	if !f.encOK {
-		return nil, errors.New("region down")
+		return nil, f.down()
 	}
 	f.maybeCancel("enc")
+	f.mu.Lock()
+	f.retained = append(f.retained, pt) // the buffer handed to Encrypt holds the data key's plaintext: it must be wiped as well
+	f.handed = append(f.handed, append([]byte(nil), pt...))
+	f.mu.Unlock()
 	return f.seal(pt), nil
 }
 
 func (f *fakeRegion) decrypt(blob []byte) ([]byte, error) {
 	f.note("dec")
 	if !f.decOK {
-		return nil, errors.New("region down")
+		return nil, f.down()
 	}
 	pt, err := f.open(blob)
 	if err != nil {
@@ -220,8 +239,9 @@ type kmsCase struct {
 	Partial   []bool   `json:"partial,omitempty"` // regions whose GenerateDataKey response is incomplete (wipe monitor only, C10)
 	Cancel    string   `json:"cancel,omitempty"`  // "gen" | "enc" | "dec": the caller's context ends as the CancelAt-th successful call of that kind returns (wipe monitor only, C10)
 	CancelAt  int      `json:"cancelat,omitempty"`
-	Leak      bool     `json:"leak,omitempty"`  // debug logging is on and every line is scanned for plaintext keys (C03)
-	Wrong     []bool   `json:"wrong,omitempty"` // unwrap side: regions whose KMS Decrypt succeeds but returns a data key that does not open the envelope
+	Leak      bool     `json:"leak,omitempty"`    // debug logging is on and every line is scanned for plaintext keys (C03)
+	Wrong     []bool   `json:"wrong,omitempty"`   // unwrap side: regions whose KMS Decrypt succeeds but returns a data key that does not open the envelope
+	ErrKind   []int    `json:"errkind,omitempty"` // per region: flavour of the error its failing calls return
 	Viol      []string `json:"viol,omitempty"`
 }
 
@@ -303,6 +323,9 @@ func runKmsCase(c *kmsCase, r *gen.Rand) {
 	for i := 0; i < c.N; i++ {
 		regs = append(regs, &fakeRegion{id: i, name: fmt.Sprintf("region-%d", i), arn: fmt.Sprintf("arn:aws:kms:region-%d:key/%d", i, i),
 			genOK: c.Gen[i], encOK: c.Enc[i], decOK: true, log: &log, logMu: &logMu})
+		if i < len(c.ErrKind) {
+			regs[i].errKind = c.ErrKind[i]
+		}
 	}
 	anyPartial := false
 	for i, p := range c.Partial {
@@ -550,6 +573,9 @@ func runKms(a *args) error {
 		c := &kmsCase{N: n, Pref: r.Intn(n), Gen: bits(r.Intn(1<<uint(n)), n), Enc: bits(r.Intn(1<<uint(n)), n), Dec: bits(r.Intn(1<<uint(n)), n),
 			WrapV: 1 + r.Intn(2), UnwrapV: 1 + r.Intn(2), DecN: 1 + r.Intn(n)}
 		c.Leak = a.extra == "leak"
+		for j := 0; j < n; j++ {
+			c.ErrKind = append(c.ErrKind, gen.Pick(r, []int{0, 0, 1, 2, 3}))
+		}
 		if n >= 2 && r.Chance(1, 4) { // some regions hand back a data key that does not open the envelope
 			c.Wrong = bits(r.Intn(1<<uint(n)), n)
 		}
